@@ -645,3 +645,17 @@ Proof.
   assert (H : forallb (fun j => negb (getz ex_doc j =? 0)) (zrange 0 15) = true) by (vm_compute; reflexivity).
   pose proof (zrange_forall _ 0 15 H i ltac:(lia)) as Hj. cbv beta in Hj. lia.
 Qed.
+
+(* ---- the buffer as a whole ---------------------------------------------------------------------------------------- *)
+(* at every moment the buffer is the input followed by the NUL terminator, except that some TAB/LF/CR bytes
+   already read have become spaces; nothing at or beyond the cursor has been touched *)
+Theorem xml_buffer_rewrites_proof : forall d s, reach d s ->
+  len (lbuf (xr s)) = len d + 1 /\
+  (forall i, getz (lbuf (xr s)) i = getz d i \/ (ws3 (getz d i) /\ getz (lbuf (xr s)) i = 32)) /\
+  (forall i, lpos (xr s) <= i -> getz (lbuf (xr s)) i = getz d i).
+Proof.
+  intros d s R. pose proof (reach_inv d s R) as Inv. split; [|split].
+  - pose proof (i_len d s Inv) as H. unfold lx_len in H. lia.
+  - apply (i_rewr d s Inv).
+  - apply (i_unread d s Inv).
+Qed.
